@@ -36,7 +36,10 @@ type Prog struct {
 
 // Load loads the given patterns (relative to dir) with full syntax and builds SSA for
 // every package of the module that was loaded.
-func Load(dir string, patterns ...string) (*Prog, error) {
+func Load(dir string, patterns ...string) (*Prog, error) { return LoadMod(dir, Mod, patterns...) }
+
+// LoadMod loads packages whose import path starts with modPrefix as "repository" packages (used for the fixtures).
+func LoadMod(dir, modPrefix string, patterns ...string) (*Prog, error) {
 	fset := token.NewFileSet()
 	cfg := &packages.Config{
 		Mode:  packages.LoadSyntax,
@@ -57,7 +60,7 @@ func Load(dir string, patterns ...string) (*Prog, error) {
 	var errs []string
 	packages.Visit(pkgs, nil, func(pk *packages.Package) {
 		p.All[pk.PkgPath] = pk
-		if strings.HasPrefix(pk.PkgPath, Mod) {
+		if strings.HasPrefix(pk.PkgPath, modPrefix) {
 			for _, e := range pk.Errors {
 				errs = append(errs, e.Error())
 			}
@@ -74,7 +77,7 @@ func Load(dir string, patterns ...string) (*Prog, error) {
 	_ = spkgs
 	p.SSA = prog
 	for path, pk := range p.All {
-		if strings.HasPrefix(path, Mod) && pk.Types != nil {
+		if strings.HasPrefix(path, modPrefix) && pk.Types != nil {
 			if sp := prog.Package(pk.Types); sp != nil {
 				sp.Build()
 				p.SSAPkg[path] = sp
